@@ -4,5 +4,6 @@ CONSTANTS
   PjCases <- SemCasesT
   PjMaxChoices = 0
   PjData <- D2
-INVARIANTS PjTypeOK InvIsInverse LocalsWin RewrittenLocalsWin OrderKept OmitMeaning CanonAgrees EmitPj
+  PjResources <- Res
+INVARIANTS PjTypeOK PassIsGeodesy InvIsInverse LocalsWin RewrittenLocalsWin OrderKept OmitMeaning CanonAgrees EmitPj
 CHECK_DEADLOCK FALSE
